@@ -164,6 +164,13 @@ def _grid(kind, seed):
         return np.arange(10.0, 8000.0, 10.0)
     if kind == "geometric":
         return 10.0 * 1.02 ** np.arange(340)
+    if kind == "window":
+        # a finely resolved window at high pressure whose steps alternate between 0.002 and 0.03 psi: far from evenly
+        # spaced, yet within 1e-5 of the pressure itself of an even grid
+        return 6000.0 + np.concatenate([[0.0], np.cumsum(np.tile([0.002, 0.03], 120))])
+    if kind == "ramp":
+        # steps growing linearly from 0.01 to 0.05 psi around 9000 psia (same remark)
+        return 9000.0 + np.concatenate([[0.0], np.cumsum(np.linspace(0.01, 0.05, 300))])
     g = LCG(seed + 11)
     return 10.0 + np.cumsum(np.array([0.5 + 40 * g.next() ** 2 for _ in range(600)]))
 
@@ -187,7 +194,7 @@ def eval_synth(case):
         mu, z = np.full_like(p, mu0), np.full_like(p, 0.9)
         exact = (p**2 - p[0] ** 2) / (mu0 * 0.9)
         exact_scale = abs(exact[-1])
-        tol = 1e-12
+        tol = 1e-12 if p[0] < 100 else 1e-9  # (p^2 - p0^2 cancels eight digits in a narrow high-pressure window)
     else:
         zf = lambda q: 1 - 3e-5 * q + 4e-9 * q**2  # noqa: E731
         muf = lambda q: 0.015 * np.exp(5e-5 * q)  # noqa: E731
@@ -231,7 +238,7 @@ def cases(tier, seed):
     out = [{"kind": "comp", **c, "nodes": nodes, "pmax": pmax} for c in compositions(tier, seed)]
     out += [{"kind": "synth", "grid": g, "integrand": i, "seed": seed}
             for g, i in itertools.product(["uniform", "geometric", "irregular", "uniform-desc", "irregular-desc",
-                                           "uniform-int", "irregular-int", "irregular-int-desc"],
+                                           "uniform-int", "irregular-int", "irregular-int-desc", "window", "ramp", "window-desc"],
                                           ["linear", "zdip"])]
     return out
 
